@@ -7,10 +7,7 @@ namespace TfelVerif.C31
 
 theorem comHead_cases (m : Marker) (ws1 t after : List Char) (h : comHeadOK m ws1 t after) (tl : List Char)
     (hne : after ≠ [] ∨ tl = []) :
-    match m with
-    | .none => (ws1 ++ (t ++ (after ++ tl))).head? ≠ some '!'
-    | .fwd => (ws1 ++ (t ++ (after ++ tl))).head? ≠ some '<'
-    | .back => True := by
+    MarkerHead m (ws1 ++ (t ++ (after ++ tl))) := by
   obtain ⟨_, _, hm⟩ := h
   have key : (ws1 ++ (t ++ (after ++ tl))).head? = (ws1 ++ t ++ after).head? := by
     cases ws1 with
@@ -26,8 +23,8 @@ theorem comHead_cases (m : Marker) (ws1 t after : List Char) (h : comHeadOK m ws
           · exact absurd rfl h
           · simp [h]
   cases m with
-  | none => simpa [key] using hm
-  | fwd => simpa [key] using hm
+  | none => simpa [MarkerHead, key] using hm
+  | fwd => simpa [MarkerHead, key] using hm
   | back => trivial
 
 theorem parseCxxComment_spec (n : Nat) (s : St) (o : Nat) (m : Marker) (ws1 t : List Char)
